@@ -205,14 +205,14 @@ def _pipeline_cases(ctx):
              "row_group": rng.choice([None, 5, 64]) if fmt == "parquet" else None,
              "est_mode": "proba" if learner in ("memoriser-proba", "tree") else "decision",
              "rng_kind": rng.choice(["int", "int", "generator", "none"]), "np_seed": rng.randint(0, 2 ** 31 - 1),
-             "confidence": True, "tiebreak": rng.random() < 0.7, "rescore": rng.random() < 0.3, "ensemble": False,
+             "confidence": True, "tiebreak": rng.random() < 0.7, "c04_rescore": rng.random() < 0.3, "ensemble": False,
              "stale_results": rng.random() < 0.3}
         if c["workers"] > 1 and rng.random() < 0.5:
             c["sleep_seed"] = rng.randint(1, 10 ** 6)      # perturbed task durations: worker threads finish in another order
         c["tags"] = ["pipeline", learner, f"files={nfiles}", f"folds={folds}", f"psms-per-spectrum<={mult}", f"keycols={nkey}",
                      "cap" if c["subset_max_train"] else "nocap", fmt, "rng=" + c["rng_kind"],
                      "chunks=" + (",".join(sorted(chunks)) or "default"), "tiebreak" if c["tiebreak"] else "ties-kept",
-                     "test_fdr=" + c["test_fdr"], "workers=%d" % c["workers"]] + (["rescore"] if c["rescore"] else []) \
+                     "test_fdr=" + c["test_fdr"], "workers=%d" % c["workers"]] + (["rescore"] if c["c04_rescore"] else []) \
             + (["stale-result-files"] if c["stale_results"] else []) + (["thread-sleeps"] if c.get("sleep_seed") else []) \
             + sorted(set("rows=" + f["order"] for f in files)) + sorted(set("labels=" + f["label_enc"] for f in files))
         cases.append(c)
@@ -224,7 +224,7 @@ def _pipeline_cases(ctx):
                       "test_fdr": "0.25", "train_fdr": 0.25, "max_iter": 2, "learner": learner, "workers": rng.choice([1, 3]),
                       "subset_max_train": None, "chunks": {}, "fmt": "tsv", "row_group": None,
                       "est_mode": "proba" if learner == "memoriser-proba" else "decision",
-                      "rng_kind": "int", "np_seed": k, "confidence": True, "tiebreak": False, "rescore": False, "ensemble": False,
+                      "rng_kind": "int", "np_seed": k, "confidence": True, "tiebreak": False, "c04_rescore": False, "ensemble": False,
                       "large": True, "tags": ["pipeline", learner, "mc-large"]})
     # ensemble=True: every PSM is scored by the mean of ALL fold models (known finding, see known_findings.json)
     for k in range(4 if ctx.thorough else 2):
@@ -232,7 +232,7 @@ def _pipeline_cases(ctx):
         cases.append({"fn": "pipeline", "cid": "e%d" % k, "files": [f], "folds": rng.choice([2, 3, 5]), "seed": rng.randint(0, 10 ** 6),
                       "test_fdr": "0.25", "train_fdr": 0.25, "max_iter": 2, "learner": "memoriser", "workers": 1,
                       "subset_max_train": None, "chunks": {}, "fmt": "tsv", "row_group": None, "est_mode": "decision",
-                      "rng_kind": "int", "np_seed": k, "confidence": True, "tiebreak": True, "rescore": False, "ensemble": True,
+                      "rng_kind": "int", "np_seed": k, "confidence": True, "tiebreak": True, "c04_rescore": False, "ensemble": True,
                       "tags": ["pipeline", "memoriser", "ensemble"]})
     return cases
 
@@ -545,7 +545,7 @@ def run_pipeline(case):
                     leftovers.append(fn)
             # ---- brew again with the fitted models on freshly read datasets
             rescore = None
-            if case.get("rescore"):
+            if case.get("c04_rescore"):
                 dss2 = mokapot.read_pin(paths, max_workers=1)
                 try:
                     _, models2, scores2, _ = mokapot.brew(dss2, list(models), test_fdr=float(case["test_fdr"]),
@@ -574,7 +574,7 @@ def run_pipeline(case):
             "conf_rows": conf_rows, "leftovers": leftovers, "conf_error": conf_err,
             "conf_scores": [[Fraction(float(v)) for v in sc] for sc in conf_scores] if finite else None,
             "finite": finite,
-            "rescore": rescore,
+            "c04_rescore": rescore,
         }
     finally:
         shutil.rmtree(d, ignore_errors=True)
@@ -629,8 +629,9 @@ def _compare_without_model(c, got):
     impl = {"model_folds": obs["model_folds"], "scored": obs["scored_ids"], "trained": obs["trained"], "train": train,
             "scores": "not compared (large dataset)"}
     impl["brew_oracle"] = c02.oracle(c, ("ok", impl))
+    impl["property"] = impl["brew_oracle"]
     model = {"model_folds": list(range(1, k + 1)), "scored": obs["scored_ids"], "trained": [True] * k, "train": ["ok"] * k,
-             "scores": "not compared (large dataset)", "brew_oracle": None}
+             "scores": "not compared (large dataset)", "brew_oracle": None, "property": None}
     return ("ok", model), ("ok", impl)
 
 
@@ -695,9 +696,9 @@ def _run_pipeline_case(c):
             _mc_collect(c, obs)
         _STATUS[c["cid"]] = "scored"
     # ---- brew(models of the first run) on the same data: same routing, same scores, no leak
-    if c.get("rescore"):
-        m[1]["rescore"] = {"scores_equal": True, "scored": obs["scored_ids"], "folds": obs["model_folds"]}
-        i[1]["rescore"] = obs["rescore"]
+    if c.get("c04_rescore"):
+        m[1]["c04_rescore"] = {"scores_equal": True, "scored": obs["scored_ids"], "folds": obs["model_folds"]}
+        i[1]["c04_rescore"] = obs["c04_rescore"]
     return m, i
 
 
@@ -747,13 +748,19 @@ def run_case(c):
     return _run_pipeline_case(c)
 
 
-PIPE_KEYS = ("leaked", "conf_error", "conf_oracle", "conf", "rescore", "brew_oracle")
+PIPE_KEYS = ("leaked", "conf_error", "conf_oracle", "conf", "c04_rescore", "brew_oracle")
 
 
 def same(c, m, i):
     if c["fn"] != "pipeline":
         return m[0] == i[0] == "ok" and lib.jsonable(m[1]) == lib.jsonable(i[1])
-    if not c02.same(c, m, i):
+    if c.get("large"):
+        # brew stage checked without the extracted model (_compare_without_model): every field it produced must agree
+        if m[0] != i[0] or (m[0] != "ok" and m[1] != i[1]):
+            return False
+        if m[0] == "ok" and not all(k in i[1] and lib.jsonable(m[1][k]) == lib.jsonable(i[1][k]) for k in m[1]):
+            return False
+    elif not c02.same(c, m, i):
         return False
     if i[0] != "ok":
         return True
@@ -781,6 +788,8 @@ def nontrivial(c):
 
 def oracle(c, i):
     if i[0] != "ok":
+        if c["fn"] == "pipeline" and "; " in str(i[1]):
+            return str(i[1]).split("; ", 1)[1]          # brew raised and c02.compare found a recorded training set wrong
         if c["fn"] == "pipeline" and str(i[1]).startswith("RuntimeError"):
             return None          # no target below test_fdr in some fold: the explicit error of the calibration (C11)
         if c["fn"] == "pipeline" and i[1] == "ValueError" and c.get("subset_max_train") and len(c["files"]) > 1:
@@ -815,8 +824,8 @@ def oracle(c, i):
             return "assign_confidence failed on the scores returned by brew: " + o["conf_error"]
         if o.get("conf_oracle"):
             return "result files after brew: " + o["conf_oracle"]
-        r = o.get("rescore")
-        if c.get("rescore") and r is not None:
+        r = o.get("c04_rescore")
+        if c.get("c04_rescore") and r is not None:
             if r.get("error"):
                 return "brew with the models returned by the first run failed: " + r["error"]
             if r["scored"] != o["scored"]:
